@@ -47,6 +47,9 @@ type PendingAtt struct {
 	Due       common.Slot
 	Included  int
 	Again     bool // include a second time in a later block (valid duplicate)
+	// double vote: DoubleOf is the earlier (right source, WRONG target) vote of the same validators for the same epoch
+	DoubleOf   *PendingAtt
+	IncludedAt common.Slot
 }
 
 func bitlist(bits []bool) phase0.AttestationBits {
@@ -183,7 +186,7 @@ func (c *Chain) planEpoch(e common.Epoch, sh *common.ShufflingEpoch, epc *common
 		}
 	}
 	for v := range p.Who {
-		if c.Absent[v] {
+		if c.Absent[v] || (c.lateAbsent[v] && e >= c.lateAbsentFrom) {
 			p.Who[v] = Part{}
 		}
 	}
@@ -235,6 +238,28 @@ func (c *Chain) genPending(a common.Slot, epc *common.EpochsContext, flats []com
 		for _, k := range order {
 			pa := &PendingAtt{Slot: a, Index: common.CommitteeIndex(ci), Committee: append([]common.ValidatorIndex(nil), cm...),
 				Bits: groups[k], Variant: k.v, Due: a + k.d, Again: c.Rng.Chance(4)}
+			if ci == 0 && a%sp.SLOTS_PER_EPOCH == 1 && k.v == VarCorrect && k.d == 1 && !c.NoDoubleVotes {
+				// once per epoch: the first members of this aggregate ALSO sign a vote with the right source and a wrong target
+				// (a slashable double vote, still valid to include); it is included FIRST, the fully correct vote after it —
+				// in the same block (even epochs) or in the next one (odd epochs). The flags of both must be merged.
+				first := make([]bool, len(cm))
+				cnt := 0
+				for i, b := range groups[k] {
+					if b && cnt < 2 {
+						first[i] = true
+						cnt++
+					}
+				}
+				if cnt > 0 {
+					pa0 := &PendingAtt{Slot: a, Index: common.CommitteeIndex(ci), Committee: pa.Committee, Bits: first, Variant: VarWrongTarget, Due: a + 1}
+					c.Pending = append(c.Pending, pa0)
+					pa.DoubleOf = pa0
+					pa.Again = false
+					if e%2 == 1 {
+						pa.Due = a + 2
+					}
+				}
+			}
 			if f := sp.ALTAIR_FORK_EPOCH; uint64(f) < uint64(c.Epochs) && e+1 == f && k.d == 1 && a%sp.SLOTS_PER_EPOCH+3 <= sp.SLOTS_PER_EPOCH && c.Rng.Chance(40) {
 				// last phase0 epoch: the aggregate is included a second time later in the same epoch, so that
 				// previous_epoch_attestations at the altair upgrade holds two records for the same validators, the later one
@@ -316,7 +341,7 @@ func (p *ProposeCtx) slashable(v common.ValidatorIndex) bool {
 // AddProposerSlashing manufactures two conflicting signed headers of validator v.
 func (p *ProposeCtx) AddProposerSlashing(v common.ValidatorIndex) bool {
 	c := p.C
-	if uint64(len(p.B.ProposerSlashings)) >= uint64(c.Spec.MAX_PROPOSER_SLASHINGS) || p.used[v] || !p.slashable(v) || v == p.B.ProposerIndex || !p.spare() {
+	if c.Protected[v] || uint64(len(p.B.ProposerSlashings)) >= uint64(c.Spec.MAX_PROPOSER_SLASHINGS) || p.used[v] || !p.slashable(v) || v == p.B.ProposerIndex || !p.spare() {
 		return false
 	}
 	p.removed++
@@ -366,7 +391,7 @@ func (p *ProposeCtx) AddAttesterSlashing(vs []common.ValidatorIndex, surround bo
 	var set []common.ValidatorIndex
 	any := false
 	for _, v := range vs {
-		if p.used[v] || int(v) >= len(p.Flats) || v == p.B.ProposerIndex {
+		if p.used[v] || int(v) >= len(p.Flats) || v == p.B.ProposerIndex || c.Protected[v] {
 			continue
 		}
 		if p.slashable(v) {
@@ -392,6 +417,48 @@ func (p *ProposeCtx) AddAttesterSlashing(vs []common.ValidatorIndex, surround bo
 		}
 	}
 	p.Ops["aslash"]++
+	return true
+}
+
+// AddOverlappingAttesterSlashings puts TWO attester slashings with overlapping index sets {a,b} and {b,c} into the block: b is
+// slashed by the first one and must be skipped by the second, which stays valid because c is still slashable.
+func (p *ProposeCtx) AddOverlappingAttesterSlashings() bool {
+	c := p.C
+	if uint64(len(p.B.AttesterSlashings))+2 > uint64(c.Spec.MAX_ATTESTER_SLASHINGS) {
+		return false
+	}
+	var abc []common.ValidatorIndex
+	n := len(p.Flats)
+	for t := 0; t < 20*n && len(abc) < 3; t++ {
+		v := common.ValidatorIndex(c.Rng.Intn(n))
+		if p.used[v] || v == p.B.ProposerIndex || !p.slashable(v) || !p.spare() || c.Protected[v] {
+			continue
+		}
+		dup := false
+		for _, x := range abc {
+			dup = dup || x == v
+		}
+		if dup {
+			continue
+		}
+		abc = append(abc, v)
+		p.removed++
+	}
+	if len(abc) < 3 {
+		p.removed -= len(abc)
+		return false
+	}
+	as1 := c.makeAttesterSlashing(p, []common.ValidatorIndex{abc[0], abc[1]}, c.Rng.Bool())
+	as2 := c.makeAttesterSlashing(p, []common.ValidatorIndex{abc[1], abc[2]}, c.Rng.Bool())
+	p.B.AttesterSlashings = append(p.B.AttesterSlashings, as1, as2)
+	for _, v := range abc {
+		p.used[v] = true
+		p.Flats[v].Slashed = true
+		c.noteSlashed(v)
+		p.Ops["aslash_validators"]++
+	}
+	p.Ops["aslash"] += 2
+	p.Ops["aslash_overlapping_pairs"]++
 	return true
 }
 
@@ -597,6 +664,15 @@ func (c *Chain) fillAttestations(p *ProposeCtx) {
 		if pa.Variant == VarWrongTarget {
 			c.wrongTargetIncluded[d.Target.Epoch]++
 		}
+		if pa.DoubleOf != nil && pa.DoubleOf.Included > 0 && pa.Included == 0 {
+			p.Ops["att_double_vote_wrong_target_first"]++
+			if pa.DoubleOf.IncludedAt == p.Slot {
+				p.Ops["att_double_vote_same_block"]++
+			} else {
+				p.Ops["att_double_vote_later_block"]++
+			}
+		}
+		pa.IncludedAt = p.Slot
 		if f := c.Spec.ALTAIR_FORK_EPOCH; pa.Included >= 1 && p.Fork == Phase0 && d.Target.Epoch+1 == f && p.Epoch+1 == f {
 			p.Ops["att_overlap_fewer_flags_last_phase0_epoch"]++
 		}
@@ -680,7 +756,8 @@ func (c *Chain) fillSync(p *ProposeCtx) {
 		case "few":
 			on = c.Rng.Chance(12)
 		}
-		if on && len(c.Absent) > 0 && p.Epc.CurrentSyncCommittee != nil && c.Absent[p.Epc.CurrentSyncCommittee.Indices[i]] {
+		if on && p.Epc.CurrentSyncCommittee != nil && (c.Absent[p.Epc.CurrentSyncCommittee.Indices[i]] ||
+			(c.lateAbsent[p.Epc.CurrentSyncCommittee.Indices[i]] && p.Epoch >= c.lateAbsentFrom)) {
 			on = false // validators a scenario keeps offline do not sign sync messages either
 		}
 		if on {
@@ -918,6 +995,20 @@ func (c *Chain) BadDepositor() string {
 	return kind
 }
 
+// ZeroAmountDepositor: a new key deposits 0 Gwei with a valid proof of possession (the validator is registered with balance 0),
+// an ordinary deposit follows, then a top-up of the zero key whose signature does not verify.
+func (c *Chain) ZeroAmountDepositor() {
+	k := c.NewDepositor(0, c.Rng.Bool())
+	c.NewDepositor(c.Spec.MAX_EFFECTIVE_BALANCE, c.Rng.Bool())
+	g := c.depositors[PubOf(k)]
+	dd := DepositDataFor(c.Spec, c.BLS, PubOf(k), g.Credentials(), c.Spec.MAX_EFFECTIVE_BALANCE, c.nextStray)
+	c.nextStray++
+	c.QueueDeposit(dd)
+	c.zeroKeys[k] = true
+	c.Stats.Add("deposits_queued", 3)
+	c.Stats.Inc("zero_amount_depositors_queued")
+}
+
 // fractionalAboveMax: an amount above MAX_EFFECTIVE_BALANCE that is not a whole number of increments (32.5, 100.25, … ETH):
 // effective balance must be min(balance - balance % INCREMENT, MAX), not min(balance, MAX) - balance % INCREMENT.
 func (c *Chain) fractionalAboveMax() common.Gwei {
@@ -1071,6 +1162,10 @@ func (c *Chain) learnValidators() {
 		}
 		c.Vals = append(c.Vals, ValInfo{Key: g.Key, WKey: g.WKey, Addr: g.Addr})
 		c.Stats.Inc("validators_added_by_deposit")
+		if c.zeroKeys[g.Key] {
+			c.Stats.Inc("validators_added_with_zero_amount")
+			c.zeroIndex[common.ValidatorIndex(i)] = true
+		}
 		if c.depForkArmed && i == c.depForkIndex && g.Key == c.depForkKey {
 			// registered at an index where the shared pubkey cache already holds the side branch's key
 			c.Stats.Inc("deposit_fork_conflicting_registration")
@@ -1157,6 +1252,9 @@ func (c *Chain) Propose(s common.Slot) (bool, error) {
 	c.attGenUpTo = s
 	c.fillEth1AndDeposits(p)
 	p.PendingDeposits = uint64(len(p.B.Deposits))
+	if c.SyncSeat {
+		c.syncSeatScript(p)
+	}
 	if c.Scenario != nil && c.Scenario.BeforeBlock != nil {
 		c.Scenario.BeforeBlock(c, p)
 	}
@@ -1169,6 +1267,7 @@ func (c *Chain) Propose(s common.Slot) (bool, error) {
 	if fork >= Bellatrix {
 		c.fillPayload(p)
 	}
+	c.noteSeatTopUp(p)
 	// 2. dry run for the state root
 	engMode := "none"
 	if fork >= Bellatrix {
@@ -1310,8 +1409,21 @@ func (c *Chain) Propose(s common.Slot) (bool, error) {
 			}
 		}
 	}
+	sibSt, sibEpc, sibCount := c.St, c.Epc, c.ValCount()
 	c.afterStep(res.Post, res.Epc, postID, preEpoch, preFork, true)
 	c.learnValidators()
+	if !c.siblingDone && !c.isSide && c.ValCount() > sibCount {
+		c.siblingBlock(sibSt, sibEpc, preID, s)
+	}
+	for v := range c.zeroIndex {
+		// the invalid-signature top-up of a key first registered with amount 0 was credited
+		if br, err := c.St.Balances(); err == nil {
+			if b, err := br.GetBalance(v); err == nil && b > 0 {
+				c.Stats.Inc("topup_invalid_sig_credited_after_zero_amount_registration")
+				delete(c.zeroIndex, v)
+			}
+		}
+	}
 	if _, _, merged := latestExec(c.St); merged {
 		c.MergeDone = true
 	}
